@@ -31,6 +31,7 @@ func init() {
 	sim.RegisterKind("pipe-bytes", "C16")
 	sim.RegisterKind("pipe-close", "C16")
 	sim.RegisterKind("server-wedged", "C16", "C18")
+	sim.RegisterKind("conn-open-after-death", "C15", "C16")
 }
 
 type tcpPeer struct {
@@ -132,7 +133,16 @@ func (x *c16) opConnect(c *sim.RawClient) {
 	dup := false
 	for _, mc := range x.conns {
 		if !mc.dead && mc.owner == c && mc.peer == p.addr.String() {
-			dup = true
+			age := time.Since(mc.created)
+			switch {
+			case mc.bound || age <= 29*time.Second:
+				dup = true
+			case age < 31*time.Second:
+				return // the unbound connection is being removed about now: outcome undetermined
+			default:
+				mc.dead = true // removed by the 30 s bind deadline
+				_ = mc.peerEnd.Close()
+			}
 		}
 	}
 	resp := x.m.Connect(c, p.addr)
@@ -427,6 +437,63 @@ func (x *c16) opClose() {
 	x.serverAlive(mc.owner, "close")
 }
 
+// opTeardown ends one client's allocation (Refresh 0 or closing the control connection): every
+// peer connection it owned, bound or not, must be closed by the server.
+func (x *c16) opTeardown(c *sim.RawClient) {
+	a, st := x.m.Alloc(c)
+	if a == nil || st != sim.Live || c.Closed {
+		return
+	}
+	how := "refresh0"
+	if x.rng.Intn(2) == 0 {
+		how = "control-close"
+		c.Close()
+		x.w.Settle()
+		x.m.ClientClosed(c)
+	} else {
+		x.m.Refresh(c, sim.U32(0))
+	}
+	x.w.Sleep(time.Second)
+	x.m.Audit(nil)
+	n := 0
+	for _, mc := range x.conns {
+		if mc.dead || mc.owner != c {
+			continue
+		}
+		n++
+		if !mc.peerEnd.PeerClosedWrite() {
+			x.rec.Violate("conn-open-after-death", how, "peer connection %d (bound=%v) of %s is still open after its allocation ended by %s", mc.id, mc.bound, c.Name, how)
+		}
+		if mc.bound && mc.data != nil && !mc.data.PeerClosedWrite() {
+			x.rec.Violate("conn-open-after-death", how+"/data", "client data connection of bound connection %d is still open after its allocation ended by %s", mc.id, how)
+		}
+		mc.dead = true
+		_ = mc.peerEnd.Close()
+		if mc.data != nil {
+			_ = mc.data.Close()
+		}
+	}
+	for _, r := range x.w.Gen.Resources() {
+		if r.Addr == a.Relay && r.Open() {
+			x.rec.Violate("conn-open-after-death", how+"/"+r.Kind, "%s resource %s (peer %s) of the ended allocation is still open", r.Kind, r.Addr, r.Peer)
+		}
+	}
+	x.rec.FP("teardown/%s/conns=%d", how, min(n, 3))
+	if how == "refresh0" {
+		x.serverAlive0()
+	}
+}
+
+// serverAlive0: lock probes only (the acting client may be gone).
+func (x *c16) serverAlive0() {
+	x.w.Settle()
+	for _, mgr := range x.w.Srv.VerifManagers() {
+		if held := mgr.VerifLocksHeld(); len(held) > 0 {
+			x.rec.Violate("lock-held", "teardown", "mutex held at a quiescent point after teardown: %v", held)
+		}
+	}
+}
+
 // opDeadline moves to 29 s / 31 s after the creation of an unbound connection.
 func (x *c16) opDeadline() {
 	mc := x.liveConn(func(c *mConn) bool { return !c.bound })
@@ -514,6 +581,9 @@ func runC16(t *testing.T, rng *rand.Rand, rec *sim.Rec, tier string, caseNo int)
 	for i := 0; i < steps && len(rec.Violations()) == 0; i++ {
 		rec.SetStep(i)
 		c := pick(rng, clients)
+		if c.Closed {
+			continue
+		}
 		switch rng.Intn(12) {
 		case 0, 1, 2:
 			if rng.Intn(5) == 0 {
@@ -532,7 +602,11 @@ func runC16(t *testing.T, rng *rand.Rand, rec *sim.Rec, tier string, caseNo int)
 		case 10:
 			x.opClose()
 		case 11:
-			x.opDeadline()
+			if rng.Intn(3) == 0 {
+				x.opTeardown(c)
+			} else {
+				x.opDeadline()
+			}
 		}
 		for _, mc := range x.conns {
 			if mc.bound && !mc.dead && rng.Intn(3) == 0 {
